@@ -105,10 +105,10 @@ def run(case):
         ok, _ = call(out, "EmMotl.write_out", lambda: cryomotl.EmMotl(_pd.DataFrame(other, columns=oracle.MOTL_COLUMNS)).write_out("other.em"))
         if not ok:
             return out
-        ok, src = call(out, "EmMotl(path)", lambda: cryomotl.EmMotl("other.em"))
+        ok, src = call(out, "EmMotl.read_in", lambda: cryomotl.EmMotl.read_in("other.em"))
         if not ok:
             return out
-        hdr = src.header if src.header else {"note": "header of other.em"}
+        hdr = src[1]
         ok, _ = call(out, "EmMotl(header).write_out", lambda: cryomotl.EmMotl(df.copy(), header=hdr).write_out(path))
     else:
         ok, _ = call(out, "Motl.load.write_out", lambda: cryomotl.Motl.load(df.copy()).write_out(path))
